@@ -278,6 +278,8 @@ def _stable_name(n):
     obligations that mirror code structure (asserts, callee preconditions, raises) are folded
     into one name per function, so harmless refactorings do not change the baseline."""
     import re
+    if n.startswith("order-independence."):
+        return re.sub(r"#\d+\[.*$", "", n)
     n = re.sub(r"\[.*\]\.", ".", n)
     # E2 wrapper names: drop the configuration (width/container/order/backing/enum type) and counts
     n = re.sub(r"^((?:read|write)_[a-z]+)_[A-Za-z0-9]+_w\d+_c\d+_[A-Za-z]+_[a-z]+\.", r"\1.", n)
